@@ -18,8 +18,7 @@ VALUE_CASTS = {'IntegralCast', 'IntegralToBoolean'}
 
 
 def effective(cond, truth):
-    """normal form of a two-way branch outcome: leading '!' folded into the truth value; a && / || node used as
-    the branch value stands for its right operand (reaching that block fixed the left one)"""
+    """normal form of a two-way branch outcome: leading '!' folded into the truth value"""
     if truth not in (True, False) or cond is None:
         return cond, truth
     c = cond
@@ -30,9 +29,6 @@ def effective(cond, truth):
         if s.k == 'un' and s.op == '!' and s.args and s.args[0] is not None:
             c = s.args[0]
             truth = not truth
-            continue
-        if s.k == 'bin' and s.op in ('&&', '||') and len(s.args) == 2 and s.args[1] is not None:
-            c = s.args[1]
             continue
         break
     return c, truth
